@@ -503,6 +503,101 @@ theorem saPlace_initial_documented (vr : VR) (cs : List Constraint) (m : Machine
           obtain ⟨p, hp, _⟩ := finish_ex O (hcons _ _ _ hA) hP m'' I hmono hall
           rw [hp] at h; simp at h
 
+/-- **Annealing kernel: one step raises nothing.**  In a state satisfying the invariant, for EVERY
+proposal whose source vertex is one of the placed vertices, `_step` (with `_get_candidate_swap`,
+`_swap` and the revert) performs no failing lookup: the model's only failure is `BadOracle` (the
+proposal is not a possible draw: a fixed source vertex, or a destination equal to the source chip). -/
+theorem saStep_documented (vr : VR) (fixed : List Vtx) (p0 : Placement) (m0 : Machine) (tot : Chip → Nat → Int)
+    (s : SA) (src : Vtx) (dst : Chip) (accept : Bool) (e : Err)
+    (hn : (keys vr).Nodup) (I : SAInv vr fixed p0 m0 tot s) (hpvr : ∀ v ∈ keys p0, v ∈ keys vr)
+    (hsrc : src ∈ keys p0)
+    (h : saStep vr fixed s src dst accept = .error e) : e = .badOracle :=
+  SAInv.step_doc hn I hpvr hsrc h
+
+/-- **Annealer (Python kernel), whole run: only the documented errors**, for EVERY outcome of the two
+shuffles and EVERY proposal list over the vertices (`BadOracle`: the proposal list is not a possible
+sequence of draws). -/
+theorem saPlace_documented (vr : VR) (cs : List Constraint) (m : Machine) (locs : List Chip)
+    (vs : List Vtx) (steps : Option (List Step)) (e : Err)
+    (wf : WF vr cs m) (hcons : Consistent vr cs) (dom : InDomain vr cs m)
+    (hlocs : ∀ c ∈ locs, m.ok c = true)
+    (hvs : ∀ vr' cs' subs m' fixed, applySame vr cs = .ok (vr', cs', subs) →
+      prepareLoop vr' cs' m [] = .ok (m', fixed) →
+      (∀ v ∈ keys vr', v ∈ vs ∨ v ∈ keys fixed) ∧ ∀ v ∈ vs, v ∈ keys vr')
+    (hsteps : ∀ sts, steps = some sts → ∀ vr' cs' subs, applySame vr cs = .ok (vr', cs', subs) →
+      ∀ st ∈ sts, st.src ∈ keys vr')
+    (h : saPlace vr cs m locs vs steps = .error e) :
+    e = .insufficient ∨ e = .invalidConstraint ∨ e = .badOracle := by
+  cases steps with
+  | none =>
+    rcases saPlace_initial_documented vr cs m locs vs e wf hcons dom hlocs hvs h with h | h
+    · exact Or.inl h
+    · exact Or.inr (Or.inl h)
+  | some sts =>
+    obtain ⟨d1, d2⟩ := prefix_doc dom
+    have hnone : ∀ e', saPlace vr cs m locs vs none = .error e' → e' = .insufficient ∨ e' = .invalidConstraint :=
+      fun e' he' => saPlace_initial_documented vr cs m locs vs e' wf hcons dom hlocs hvs he'
+    unfold saPlace at h hnone
+    split at h
+    · simp at h
+    · rename_i hlen
+      simp only [hlen, if_false] at hnone
+      cases hA : applySame vr cs with
+      | error e' => exact absurd hA (d1 e')
+      | ok r =>
+        obtain ⟨vr', cs', subs⟩ := r
+        have O := applySame_spec m wf.nodup wf.original hA
+        have hn' : (keys vr').Nodup := O.inv.nodup
+        have hnn' := O.nonneg wf.nonnegVR
+        cases hP : prepareLoop vr' cs' m [] with
+        | error e' =>
+          simp only [hA, hP, bind, Except.bind] at h hnone
+          rcases hnone e (by rw [h]) with h | h
+          · exact Or.inl h
+          · exact Or.inr (Or.inl h)
+        | ok r2 =>
+          obtain ⟨m', fixed⟩ := r2
+          obtain ⟨hvs1, hvs2⟩ := hvs _ _ _ _ _ hA hP
+          cases hI : initialPlacement vr' m' locs vs with
+          | error e' =>
+            simp only [hA, hP, hI, bind, Except.bind] at h hnone
+            rcases hnone e (by rw [h]) with h | h
+            · exact Or.inl h
+            · exact Or.inr (Or.inl h)
+          | ok r3 =>
+            obtain ⟨m'', init⟩ := r3
+            obtain ⟨I, hmono, hall⟩ := sa_initial_facts hn' hnn' wf.nonnegCap hP hI hvs1
+            simp only [hA, hP, hI, bind, Except.bind, pure, Except.pure] at h
+            have hp0 : List.foldl (fun q (vc : Vtx × Chip) => aset q vc.1 vc.2) init fixed = mergeP init fixed := rfl
+            rw [hp0] at h
+            obtain ⟨l2v, hL⟩ := mkL2v_ok m'' (mergeP init fixed) (m''.chips.map fun c => (c, []))
+              (by
+                intro vc hvc
+                have hok : m''.ok vc.2 = true := by
+                  rw [I.ok_eq]; exact I.pok vc.1 vc.2 ((mem_iff_aget I.pnodup vc.1 vc.2).1 hvc)
+                simp only [keys, List.map_map, List.mem_map, Function.comp]
+                exact ⟨vc.2, (mem_chips_iff m'' vc.2).2 hok, rfl⟩)
+            have hL' : mkL2v m'' (mergeP init fixed) = .ok l2v := hL
+            simp only [hL'] at h
+            have J0 := SAInv.start (keys fixed) I hL'
+            cases hR : saRun vr' (keys fixed) sts { m := m'', p := mergeP init fixed, l2v := l2v } [] with
+            | error e' =>
+              simp only [hR] at h
+              injection h with h; subst h
+              right; right
+              refine SAInv.run_doc hn' I.pvr sts _ _ _ J0 (fun st hst => ?_) hR
+              exact (aget_isSome_iff _ _).1 (hall _ (hsteps sts rfl _ _ _ hA st hst))
+            | ok r4 =>
+              obtain ⟨s, fl'⟩ := r4
+              simp only [hR] at h
+              have J := SAInv.run hn' _ _ _ _ _ J0 hR
+              obtain ⟨p, hp, _⟩ := finish_ex O (hcons _ _ _ hA) hP s.m (J.toInv I)
+                (fun v c hv => by
+                  rw [J.fixedUnmoved v ((aget_isSome_iff fixed v).1 (by simp [hv]))]
+                  exact hmono v c hv)
+                (fun v hv => (aget_isSome_iff _ _).2 ((J.pkeys v).2 ((aget_isSome_iff _ _).1 (hall v hv))))
+              rw [hp] at h; simp at h
+
 /-- **The oracle is the specification.**  The decidable check the harness runs on every placement
 returned by the implementation is equivalent to `Feasible`. -/
 theorem validPlacement_iff (vr : VR) (cs : List Constraint) (m : Machine) (p : Placement) :
@@ -786,6 +881,73 @@ theorem saPlace_initial_complete_unit (vr : VR) (cs : List Constraint) (m m' : M
       simp only [initialPlacement, hout]
       exact ⟨mergeP init fixed, by simp [finalise, finaliseFrom, mergeP]⟩
 
+/-- **Completeness (annealer with the Python kernel, whole run) under the unit-demand hypothesis.**
+Same hypotheses; for EVERY outcome of the shuffles and EVERY proposal list over the vertices
+`sa.place` succeeds (`BadOracle`: the proposal list is not a possible sequence of draws). -/
+theorem saPlace_complete_unit (vr : VR) (cs : List Constraint) (m m' : Machine) (fixed : Placement)
+    (locs : List Chip) (vs : List Vtx) (steps : Option (List Step)) (r0 : Nat)
+    (hnodup : (keys vr).Nodup) (hcap : NonNegCap m)
+    (hnosame : ∀ vs, Constraint.same vs ∉ cs)
+    (hunit : ∀ v d, (v, d) ∈ vr → UnitDem r0 d)
+    (hprep : prepareLoop vr cs m [] = .ok (m', fixed))
+    (hlocs : locs.Perm m'.chips)
+    (hvs : vs.Perm ((keys vr).filter fun v => !(aget fixed v).isSome))
+    (hne : m'.chips ≠ [])
+    (hsuff : needOf fixed vr r0 (keys vr) ≤ total m' m'.chips r0)
+    (hsteps : ∀ sts, steps = some sts → ∀ st ∈ sts, st.src ∈ keys vr) :
+    (∃ p fl, saPlace vr cs m locs vs steps = .ok (p, fl)) ∨
+      saPlace vr cs m locs vs steps = .error .badOracle := by
+  obtain ⟨p, hp⟩ := saPlace_initial_complete_unit vr cs m m' fixed locs vs r0 hnodup hcap hnosame hunit hprep
+    hlocs hvs hne hsuff
+  cases steps with
+  | none => exact Or.inl ⟨p, [], hp⟩
+  | some sts =>
+    obtain ⟨hA, hNN, hunit', _⟩ := unit_setup hnodup hcap hnosame hunit hprep
+    have hnn : NonNegVR vr := by
+      intro v d hvd i
+      have hu := hunit v d hvd
+      by_cases e : i = r0
+      · subst e; rcases hu.2 with h | h <;> omega
+      · rw [hu.1 i e]; omega
+    unfold saPlace at hp ⊢
+    split at hp
+    · rename_i h0; simp only [h0, if_true]; exact Or.inl ⟨[], [], rfl⟩
+    · rename_i h0
+      simp only [h0, if_false]
+      simp only [hA, hprep, bind, Except.bind, pure, Except.pure] at hp ⊢
+      cases hI : initialPlacement vr m' locs vs with
+      | error e' => simp [hI] at hp
+      | ok r3 =>
+        obtain ⟨m'', init⟩ := r3
+        simp only [hI]
+        have hp0 : List.foldl (fun q (vc : Vtx × Chip) => aset q vc.1 vc.2) init fixed = mergeP init fixed := rfl
+        rw [hp0]
+        obtain ⟨I, hmono, hall⟩ := sa_initial_facts (cs' := cs) hnodup hnn hcap hprep hI (by
+          intro v hv
+          cases hx : aget fixed v with
+          | none => exact Or.inl ((List.Perm.mem_iff hvs).2 (by simp [List.mem_filter, hv, hx]))
+          | some c => exact Or.inr ((aget_isSome_iff fixed v).1 (by simp [hx])))
+        obtain ⟨l2v, hL⟩ := mkL2v_ok m'' (mergeP init fixed) (m''.chips.map fun c => (c, []))
+          (by
+            intro vc hvc
+            have hok : m''.ok vc.2 = true := by
+              rw [I.ok_eq]; exact I.pok vc.1 vc.2 ((mem_iff_aget I.pnodup vc.1 vc.2).1 hvc)
+            simp only [keys, List.map_map, List.mem_map, Function.comp]
+            exact ⟨vc.2, (mem_chips_iff m'' vc.2).2 hok, rfl⟩)
+        have hL' : mkL2v m'' (mergeP init fixed) = .ok l2v := hL
+        simp only [hL']
+        have J0 := SAInv.start (keys fixed) I hL'
+        cases hR : saRun vr (keys fixed) sts { m := m'', p := mergeP init fixed, l2v := l2v } [] with
+        | error e' =>
+          right
+          have := SAInv.run_doc hnodup I.pvr sts _ _ _ J0
+            (fun st hst => (aget_isSome_iff _ _).1 (hall _ (hsteps sts rfl st hst))) hR
+          subst this; rfl
+        | ok r4 =>
+          obtain ⟨s, fl'⟩ := r4
+          left
+          exact ⟨s.p, fl', by simp [finalise, finaliseFrom]⟩
+
 /-! ### the Hilbert placer -/
 
 /-- **The model of `hilbert(level)` is a Hilbert curve**: for EVERY level it visits every point of
@@ -994,6 +1156,40 @@ example : Feasible saVR [loc (o 3) (1, 0)] saM [(o 0, (0, 0)), (o 1, (1, 0)), (o
       rcases hv with rfl | rfl | rfl | rfl <;> simp)
     (okEq _ _ (by decide +kernel))
 
+private theorem exPrefix {vr' : VR} {cs' : List Constraint} {subs : List (List Vtx)} {m' : Machine} {fixed : Placement}
+    (hA : applySame exVR exCS = .ok (vr', cs', subs)) (hP : prepareLoop vr' cs' exM [] = .ok (m', fixed)) :
+    vr' = [(o 2, [0, 1]), (m 0, [2, 2])] ∧ fixed = [(m 0, (1, 0))] := by
+  have e : applySame exVR exCS = .ok ([(o 2, [0, 1]), (m 0, [2, 2])],
+      [same [m 0, m 0], loc (m 0) (1, 0), reserve 1 1 none, loc (m 0) (1, 0)], [[o 0, o 1]]) := by rfl
+  rw [e] at hA; injection hA with hA; injection hA with h1 h2; injection h2 with h2 h3
+  subst h1; subst h2
+  have e2 : prepareLoop [(o 2, [0, 1]), (m 0, [2, 2])]
+      [same [m 0, m 0], loc (m 0) (1, 0), reserve 1 1 none, loc (m 0) (1, 0)] exM [] =
+      .ok ({ exM with res := [5, 7], exc := [((0, 0), [1, 1]), ((1, 0), [1, 3])] }, [(m 0, (1, 0))]) := by rfl
+  rw [e2] at hP; injection hP with hP; injection hP with h4 h5
+  exact ⟨rfl, h5.symm⟩
+
+/-- the hypotheses of the whole-run only-documented-errors theorem are satisfiable together -/
+example (e : Err)
+    (h : saPlace exVR exCS exM [(0, 0), (1, 0)] [o 2] (some [⟨o 2, (1, 0), true⟩, ⟨o 2, (0, 0), false⟩]) = .error e) :
+    e = .insufficient ∨ e = .invalidConstraint ∨ e = .badOracle :=
+  saPlace_documented exVR exCS exM _ _ _ e exWF exCons exDom
+    (by intro c hc; simp at hc; rcases hc with rfl | rfl <;> rfl)
+    (by
+      intro vr' cs' subs m' fixed hA hP
+      obtain ⟨rfl, rfl⟩ := exPrefix hA hP
+      simp [keys])
+    (by
+      intro sts hs vr' cs' subs hA st hst
+      injection hs with hs; subst hs
+      have e : applySame exVR exCS = .ok ([(o 2, [0, 1]), (m 0, [2, 2])],
+          [same [m 0, m 0], loc (m 0) (1, 0), reserve 1 1 none, loc (m 0) (1, 0)], [[o 0, o 1]]) := by rfl
+      rw [e] at hA; injection hA with hA; injection hA with h1 h2
+      subst h1
+      simp at hst
+      rcases hst with rfl | rfl <;> simp [keys])
+    h
+
 /-- the specification is not trivially true: the same problem with every vertex on the small chip -/
 example : ¬ Feasible exVR exCS exM [(o 2, (0, 0)), (o 0, (0, 0)), (o 1, (0, 0))] := by
   rw [← validPlacement_iff]; decide
@@ -1056,6 +1252,13 @@ example : ∃ p, seqPlace unVR unCS unM none (some (hilbertChips unM.w unM.h)) =
   hilbertPlace_complete_unit unVR unCS unM { unM with res := [1], exc := [((0, 0), [0])] } [(o 0, (0, 0))]
     none 0 (by decide) unCapNN (by intro vs h; simp [unCS] at h) unUnit (by rfl) (by intro v hv; exact hv)
     (by decide) (by decide)
+
+example : (∃ p fl, saPlace unVR unCS unM [(1, 0), (0, 0)] [o 2, o 1] (some [⟨o 1, (0, 0), true⟩]) = .ok (p, fl)) ∨
+    saPlace unVR unCS unM [(1, 0), (0, 0)] [o 2, o 1] (some [⟨o 1, (0, 0), true⟩]) = .error .badOracle :=
+  saPlace_complete_unit unVR unCS unM { unM with res := [1], exc := [((0, 0), [0])] } [(o 0, (0, 0))]
+    [(1, 0), (0, 0)] [o 2, o 1] _ 0 (by decide) unCapNN (by intro vs h; simp [unCS] at h) unUnit (by rfl)
+    (by decide) (by decide) (by decide) (by decide)
+    (by intro sts h st hst; injection h with h; subst h; simp at hst; subst hst; simp [unVR, keys])
 
 end example_
 
